@@ -21,12 +21,13 @@ import (
 )
 
 type rw struct {
-	fset  *token.FileSet
-	info  *types.Info
-	file  string
-	n     int
-	sites map[string]int
-	used  bool
+	timeRewritten bool
+	fset          *token.FileSet
+	info          *types.Info
+	file          string
+	n             int
+	sites         map[string]int
+	used          bool
 }
 
 func main() {
@@ -71,6 +72,9 @@ func main() {
 			p, _ := strconv.Unquote(imp.Path.Value)
 			if p == "sync" {
 				f.Decls = append(f.Decls, dummyUse("sync", "NewCond"))
+			}
+			if p == "time" && r.timeRewritten {
+				f.Decls = append(f.Decls, dummyUse("time", "Now"))
 			}
 		}
 		var buf bytes.Buffer
@@ -221,6 +225,18 @@ func (r *rw) expr(e ast.Expr) ast.Expr {
 			r.used = true
 			r.sites["synctype"]++
 			return sel("simrt", x.Sel.Name)
+		}
+		if id, ok := x.X.(*ast.Ident); ok {
+			if pn, ok := r.info.Uses[id].(*types.PkgName); ok && pn.Imported().Path() == "time" {
+				switch x.Sel.Name {
+				case "Timer", "NewTimer", "After":
+					// time.Timer (type), time.NewTimer, time.After -> simrt equivalents
+					r.used = true
+					r.sites["timertype"]++
+					r.timeRewritten = true
+					return sel("simrt", x.Sel.Name)
+				}
+			}
 		}
 		x.X = r.expr(x.X)
 		return x
